@@ -262,11 +262,39 @@ def accumulation(rep, repo, mod):
     n = 0
     for s in sites:
         star = s.rest[0] if len(s.rest) == 1 and isinstance(s.rest[0], ast.Starred) else None
-        if star is None:
-            raise ModelError(f'ops.append tuple tail is not `*a_ctrl[...]`: {norm(s.tup)[:100]}')
-        n += 1
         o = s.out
         line = cz(o.value) if isinstance(o, ast.Attribute) and o.attr == 'index' else cz(o)
+        if star is None:
+            # explicit columns: each must resolve to a_ctrl[<line>][k] (directly or through a preceding `x, y, z = a_ctrl[<line>]`)
+            cols = []
+            blk = getattr(enclosing(s.call, ast.Expr) or s.call, '_parent', None)
+            stmt = enclosing(s.call, ast.Expr)
+            sibs = []
+            if blk is not None and stmt is not None:
+                sibs = blk.body if stmt in getattr(blk, 'body', []) else getattr(blk, 'orelse', [])
+            names = {}
+            for prev in sibs[:sibs.index(stmt)] if stmt in sibs else []:
+                if isinstance(prev, ast.Assign) and len(prev.targets) == 1 and isinstance(prev.targets[0], ast.Tuple) and isinstance(prev.value, ast.Subscript) \
+                        and is_name(prev.value.value, 'a_ctrl') and all(isinstance(t, ast.Name) for t in prev.targets[0].elts):
+                    for k, t in enumerate(prev.targets[0].elts):
+                        names[t.id] = (cz(prev.value.slice), k)
+            for e in s.rest:
+                if isinstance(e, ast.Name) and e.id in names:
+                    cols.append(names[e.id])
+                elif isinstance(e, ast.Subscript) and isinstance(e.value, ast.Subscript) and is_name(e.value.value, 'a_ctrl') and isinstance(e.slice, ast.Constant):
+                    cols.append((cz(e.value.slice), e.slice.value))
+                else:
+                    cols.append(None)
+            if len(cols) != 3 or None in cols:
+                raise ModelError(f'ops.append tuple tail is neither `*a_ctrl[...]` nor three resolvable a_ctrl columns: {norm(s.tup)[:100]}')
+            n += 1
+            ok = cols == [(line, 0), (line, 1), (line, 2)] or cols == [(cz(o), 0), (cz(o), 1), (cz(o), 2)]
+            rep.ob('C13.accumulate', f'op tuple columns 6..8 for output {cz(o)}: {cols}', ok)
+            if not ok:
+                rep.violate('C13.accumulate', smod, init, s.tup, f'op columns 6, 7, 8 must be a_ctrl[{line}][0], [1], [2] (accumulator row, rise weight, fall weight) of the op\'s own '
+                            f'output line; found {cols}: the kernels multiply column 7 with the rises and column 8 with the falls of that output', node=s.call)
+            continue
+        n += 1
         ok = cz(star.value) in (f'a_ctrl[{line}]', f'a_ctrl[{cz(o)}]') and len(s.elts) == 7
         rep.ob('C13.accumulate', f'op tuple tail {cz(star)} for output {cz(o)}', ok)
         if not ok:
